@@ -12,7 +12,7 @@ vlib.register_const_dump('kernel', 'mm/pmm', os.path.join(H, 'zz_verif_consts_te
 
 class C03(flow.Spec):
     prop = 'C03'
-    props_files = ['theories/Props/C03.v', 'theories/Props/C03_examples.v', 'theories/Props/C03_trans.v', 'theories/Props/C03_trans_examples.v', 'theories/Props/C03_trans2.v', 'theories/Props/C03_trans2_examples.v', 'theories/Props/C03_trans3.v', 'theories/Props/C03_trans3_examples.v', 'theories/Props/C03_trans4.v', 'theories/Props/C03_trans4_examples.v']
+    props_files = ['theories/Props/C03.v', 'theories/Props/C03_examples.v', 'theories/Props/C03_trans.v', 'theories/Props/C03_trans_examples.v', 'theories/Props/C03_trans2.v', 'theories/Props/C03_trans2_examples.v', 'theories/Props/C03_trans3.v', 'theories/Props/C03_trans3_examples.v', 'theories/Props/C03_trans4.v', 'theories/Props/C03_trans4_examples.v', 'theories/Props/C03_trans5.v', 'theories/Props/C03_trans5_examples.v']
     model_targets = ['theories/Pmm/Bitmap.vo']
     pkg = 'mm/pmm'
     harness = [os.path.join(H, 'zz_verif_pmm_test.go'), os.path.join(H, 'zz_verif_pmm_util_test.go')]
